@@ -577,6 +577,19 @@ func (s *syncer) resolveBisyncCheckpointNameWithClient(cli client.Redis, ids []s
 		return "", err
 	}
 	if seed != nil {
+		// After a full resync the root checkpoint is ahead of the mode-specific state
+		// (bisyncStartPoint prefers it then); the migrated namespace must not fall
+		// behind the position the old one would have resumed from.
+		cpi, _, err := checkpoint.GetCheckpoint(cli, cpName, ids)
+		if err != nil {
+			return "", err
+		}
+		if cpi != nil && cpi.Offset > seed.Offset && checkpoint.MatchBisyncRunID(cpi.RunId, ids) {
+			seed, err = checkpoint.NewBisyncNamespaceSeedFromCheckpoint(cpi, seed.Slot)
+			if err != nil {
+				return "", err
+			}
+		}
 		// Once the checkpoint hash is repointed, the new namespace must be readable
 		// through the current source run IDs instead of the historical one that
 		// produced the old authoritative state.
